@@ -62,8 +62,12 @@ def gen_data(rng, tier, latent=False):
     rows = [[rng.choice(allowed[v]) for v in range(n)] for _ in range(nrows)]
     weights = None
     if rng.random() < .3:
-        if rng.random() < .5:
+        u = rng.random()
+        if u < .4:
             weights = [rs(Fraction(rng.randint(1, 6), 2)) for _ in range(nrows)]
+        elif u < .6:
+            # weights on a tiny scale (probabilities of rare events used as weights): estimates depend on their ratios only
+            weights = [rs(Fraction(rng.randint(1, 9), 2 ** 40)) for _ in range(nrows)]
         else:
             # small weights: a parent configuration that does occur can have a total weight below 1
             weights = [rs(Fraction(rng.randint(1, 9), rng.choice([20, 50, 100]))) for _ in range(nrows)]
